@@ -96,21 +96,22 @@ def promCall (labels : Labels) (buf : List PromSample) : Call :=
 
 /-- the sample loop of one series: `points` is the counter that survives from series to series,
     `buf` the samples appended since the last flush of this series -/
-def promSamples (flushPoints : Nat) (labels : Labels) : Nat → List PromSample → List PromSample → List Call × Nat
+def promSamples (hit : Nat → Bool) (labels : Labels) : Nat → List PromSample → List PromSample → List Call × Nat
   | points, buf, [] => (if buf.isEmpty then [] else [promCall labels buf], points)
   | points, buf, s :: rest =>
-    if points + 1 ≥ flushPoints then
-      let r := promSamples flushPoints labels 0 [] rest
+    if hit (points + 1) then                       -- points++; if points >= flushLimit
+      let r := promSamples hit labels 0 [] rest
       (promCall labels (buf ++ [s]) :: r.1, r.2)
-    else promSamples flushPoints labels (points + 1) (buf ++ [s]) rest
+    else promSamples hit labels (points + 1) (buf ++ [s]) rest
 
-def promSeriesList (flushPoints : Nat) : Nat → List PromSeries → List Call
+def promSeriesList (hit : Nat → Bool) : Nat → List PromSeries → List Call
   | _, [] => []
   | points, s :: rest =>
-    let r := promSamples flushPoints s.ident points [] s.samples
-    r.1 ++ promSeriesList flushPoints r.2 rest
+    let r := promSamples hit s.ident points [] s.samples
+    r.1 ++ promSeriesList hit r.2 rest
 
-def decodeProm (flushPoints : Nat) (d : PromWrite) : List Call := promSeriesList flushPoints 0 d
+/-- `hit` = the test on the point counter that flushes the open series (today `points >= 1000`) -/
+def decodeProm (hit : Nat → Bool) (d : PromWrite) : List Call := promSeriesList hit 0 d
 
 /-! ### Influx line protocol (`influxDec`) -/
 
@@ -281,12 +282,12 @@ inductive Body
   | ddSeries (d : DatadogSeries)
   | otlp (d : OtlpLogs)
 
-/-- the callback sequence of `Decode`; `flushPoints` is the remote-write point limit, `now` the wall clock
+/-- the callback sequence of `Decode`; `hit` is the remote-write point-limit test, `now` the wall clock
     a Datadog log entry without timestamp would get -/
-def Body.calls (flushPoints : Nat) (now : Int) : Body → List Call
+def Body.calls (hit : Nat → Bool) (now : Int) : Body → List Call
   | .loki d => decodeLoki d
   | .lokiProto d => decodeProto d
-  | .prom d => decodeProm flushPoints d
+  | .prom d => decodeProm hit d
   | .influx d => decodeInflux d
   | .ddLogs d => decodeDDLogs now d
   | .ddSeries d => decodeDDSeries d
@@ -303,7 +304,7 @@ def Body.streams (now : Int) : Body → List (Labels × List Entry)
   | .otlp d => otlpStreams d
 
 /-- the whole parser: decoder driving the builder -/
-def Body.run (env : Env) (flushPoints : Nat) (now : Int) (b : Body) : Except Fault (List Chunk) :=
-  parse env (b.calls flushPoints now)
+def Body.run (env : Env) (hit : Nat → Bool) (now : Int) (b : Body) : Except Fault (List Chunk) :=
+  parse env (b.calls hit now)
 
 end Qryn.Ingest
